@@ -146,6 +146,12 @@ def check_iso(case, ctx):
         ctx.close('iso==general.k0', Ki, Kg, 1e-9, bucket=name + '.k0')
     except Violation as v:
         ctx.known(R15['iso'] + ':' + model + kind + ':k0', v.bucket, v.msg)
+    # third description of the same shell: the general model given the isotropic wall as (E11, nu, h) instead of a one-ply laminate
+    ce = make_cc(dict(case, model=gen_model, wall='E11-nu-h'))
+    Ke, _ = _lin(ce, name + '.general(E11,nu,h)')
+    ctx.close('general(E11,nu,h)==general(one-ply laminate).k0', Ke, Kg, 1e-12, bucket=name + '.k0.wall-definition')
+    ctx.close('general(E11,nu,h)==general(one-ply laminate).F', np.asarray(ce.F)[:6, :6], np.asarray(cg.F)[:6, :6], 1e-12,
+              bucket=name + '.F.wall-definition')
     Gi, Gg = dense(ci.kG0), dense(cg.kG0)
     try:
         ctx.close('iso==general.kG0', Gi, Gg, 1e-9, bucket=name + '.kG0', scale=np.max(np.abs(Gg)) or 1.)
